@@ -55,6 +55,8 @@ KINDS = {
     "f_opt": ("r.o", False, True),
     "f_list": ("[r.n, r.s]", True, True),
     "missing": ("r.yy", True, False),
+    # a container display that itself holds a missing field; an attribute of the missing field as the compared operand
+    "l_missing": ("[1, r.yy]", True, False),
     # typed field matchers ("all fields of that type") as the other operand
     "T_str": ("Type.string", True, True),
     "T_int": ("Type.varint", True, True),
@@ -62,9 +64,16 @@ KINDS = {
 CONTEXTS = {"bare": "{}", "and": "({}) and True", "or": "({}) or False", "not": "not ({})"}
 
 
+ATTR_EXPRS = ["r.zz.filename == 'a'", "r.zz.filename != 'a'", "r.zz.year < 3", "'a' in r.zz.args", "r.zz.filename == r.s", "r.zz.a.b >= r.n", "lower(r.zz.filename) == 'a'", "r.zz.filename in ['a', r.s]"]
+
+
 def table():
     """(expr, engine, expected truth, known-key or None)"""
     rows = []
+    for e in ATTR_EXPRS:
+        for eng in "ic":
+            rows.append((e, eng, False, "attr", "attr", "left"))
+            rows.append((f"not ({e})", eng, True, "attr", "attr", "left"))
     for op in OPS:
         for kind, (text, container, symbolic) in KINDS.items():
             for pos in ("left", "right"):
@@ -320,6 +329,8 @@ def _key(expr, engine):
     core = expr
     if engine == "c" and re.search(r"r\.zz in ('|r\.s)", core):
         return "C08/compiled/in-str"
+    if engine == "c" and "r.zz in [1, r.yy]" in core:
+        return "C08/compiled/in-list-holding-missing"
     return f"C08/{engine}/{expr}"
 
 
